@@ -4,5 +4,590 @@
 import Theo.Spec.CFG
 
 namespace Theo
+namespace LRSound
 
+/-! ## A. the value computed by the driver is the fold of the tree it builds -/
+
+def pmap {α β : Type} (f : α → β) : ParseOut α → ParseOut β
+  | .accept v => .accept (f v)
+  | .reject => .reject
+  | .stuck => .stuck
+  | .fuelOut => .fuelOut
+
+theorem foldRev_ofList {V : Type} (leaf : Nat → V) (act : Nat → Nat → List V → V) (ts : List Tree) :
+    (Forest.ofList ts).foldRev leaf act = (ts.map (Tree.fold leaf act)).reverse := by
+  induction ts with
+  | nil => simp [Forest.ofList, Forest.foldRev]
+  | cons t ts ih => simp [Forest.ofList, Forest.foldRev, ih]
+
+/-- the semantic action used by `lrParseTree` -/
+abbrev nodeAct : Nat → Nat → List Tree → Tree :=
+  fun l a popped => Tree.node l a (Forest.ofList popped.reverse)
+
+theorem fold_nodeAct {V : Type} (leaf : Nat → V) (act : Nat → Nat → List V → V) (l a : Nat)
+    (popped : List Tree) :
+    (nodeAct l a popped).fold leaf act = act l a (popped.map (Tree.fold leaf act)) := by
+  simp [Tree.fold, foldRev_ofList]
+
+theorem lrParse_fold {V : Type} (T : Tables) (leaf : Nat → V) (act : Nat → Nat → List V → V)
+    (fuel : Nat) : ∀ (inp : List Nat) (sts : List Nat) (vs : List Tree),
+    lrParse T (fun (t : Nat) => t) leaf act fuel inp sts (vs.map (Tree.fold leaf act)) =
+      pmap (Tree.fold leaf act) (lrParse T (fun (t : Nat) => t) Tree.leaf nodeAct fuel inp sts vs) := by
+  induction fuel with
+  | zero => intro inp sts vs; simp [lrParse, pmap]
+  | succ fuel ih =>
+    intro inp sts vs
+    cases sts with
+    | nil => simp [lrParse, pmap]
+    | cons s srest =>
+      cases inp with
+      | nil => simp [lrParse, pmap]
+      | cons x xs =>
+        simp only [lrParse]
+        cases hrow : T.action[s]? with
+        | none => simp [pmap]
+        | some row =>
+          simp only []
+          by_cases hlen : row.length ≤ x
+          · simp [hlen, pmap]
+          · simp only [hlen, if_false]
+            cases hc : (row[x]?).getD .err with
+            | err => simp [pmap]
+            | shift s' =>
+              simp only []
+              have := ih xs (s' :: s :: srest) (Tree.leaf x :: vs)
+              simpa [Tree.fold] using this
+            | accept =>
+              cases vs with
+              | nil => simp [pmap]
+              | cons v vs => simp [pmap]
+            | reduce left alt beta =>
+              simp only [List.length_map, List.length_cons]
+              by_cases hb : vs.length < beta ∨ srest.length + 1 ≤ beta
+              · simp [hb, pmap]
+              · simp only [hb, if_false]
+                cases hd : (s :: srest).drop beta with
+                | nil => simp [pmap]
+                | cons sp rest' =>
+                  simp only []
+                  cases hg : ((T.goto[sp]?).bind (·[left]?)) with
+                  | none => simp [pmap]
+                  | some j =>
+                    simp only []
+                    by_cases hj : j < 0
+                    · simp [hj, pmap]
+                    · simp only [hj, if_false]
+                      have := ih (x :: xs) (j.toNat :: sp :: rest') (nodeAct left alt (vs.take beta) :: vs.drop beta)
+                      rw [← this]
+                      simp [fold_nodeAct, List.map_take, List.map_drop]
+
+theorem value_is_fold {V : Type} (T : Tables) (leaf : Nat → V) (act : Nat → Nat → List V → V)
+    (fuel : Nat) (inp : List Nat) :
+    lrParse T (fun (t : Nat) => t) leaf act fuel inp [0] [] =
+      (match lrParseTree T fuel inp with
+       | .accept t => .accept (t.fold leaf act)
+       | .reject => .reject
+       | .stuck => .stuck
+       | .fuelOut => .fuelOut) := by
+  have h := lrParse_fold T leaf act fuel inp [0] []
+  simp only [List.map_nil] at h
+  rw [h]
+  unfold lrParseTree
+  cases lrParse T (fun (t : Nat) => t) Tree.leaf nodeAct fuel inp [0] [] <;> rfl
+
+/-! ## B. facts about the automaton -/
+
+theorem foldl_inv {α β : Type} (P : β → Prop) (f : β → α → β) (l : List α) :
+    ∀ (init : β), P init → (∀ b a, a ∈ l → P b → P (f b a)) → P (l.foldl f init) := by
+  induction l with
+  | nil => intro init h0 _; simpa using h0
+  | cons x xs ih =>
+    intro init h0 hstep
+    simp only [List.foldl_cons]
+    apply ih
+    · exact hstep _ _ (by simp) h0
+    · intro b a ha hb; exact hstep b a (by simp [ha]) hb
+
+theorem mem_sortedInsert {α : Type} (lt : α → α → Bool) (r : Bool) (x y : α) (l : List α) :
+    x ∈ sortedInsert lt r y l → x = y ∨ x ∈ l := by
+  induction l with
+  | nil => simp [sortedInsert]
+  | cons z zs ih =>
+    simp only [sortedInsert]
+    split
+    · simp
+    · split
+      · intro h
+        simp only [List.mem_cons] at h ⊢
+        rcases h with h | h
+        · exact Or.inr (Or.inl h)
+        · rcases ih h with h | h
+          · exact Or.inl h
+          · exact Or.inr (Or.inr h)
+      · split
+        · intro h
+          simp only [List.mem_cons] at h ⊢
+          rcases h with h | h
+          · exact Or.inl h
+          · exact Or.inr (Or.inr h)
+        · intro h; exact Or.inr h
+
+theorem mem_foldl_insert (Q : Item → Prop) (l : List Item) (acc : ItemSet)
+    (hacc : ∀ x ∈ acc, Q x) (hl : ∀ x ∈ l, Q x) : ∀ x ∈ l.foldl ItemSet.insert acc, Q x := by
+  apply foldl_inv (fun (a : ItemSet) => ∀ x ∈ a, Q x) ItemSet.insert l acc hacc
+  intro b a ha hb x hx
+  rcases mem_sortedInsert _ _ _ _ _ hx with h | h
+  · subst h; exact hl _ ha
+  · exact hb _ h
+
+theorem hullAux_mem (g : Grammar) (fi : FirstInfo) (P Q : Item → Prop) (hQP : ∀ x, Q x → P x)
+    (hclose : ∀ it, P it → ∀ x ∈ closeItem g fi it, Q x) :
+    ∀ (fuel : Nat) (work : List Item) (acc : ItemSet), (∀ x ∈ work, P x) → (∀ x ∈ acc, Q x) →
+      ∀ x ∈ hullAux g fi fuel work acc, Q x := by
+  intro fuel
+  induction fuel with
+  | zero => intro work acc _ hacc; simpa [hullAux] using hacc
+  | succ fuel ih =>
+    intro work acc hwork hacc
+    cases work with
+    | nil => simpa [hullAux] using hacc
+    | cons it work =>
+      simp only [hullAux]
+      have hnews : ∀ x ∈ ((closeItem g fi it).filter (fun x => !acc.contains x)).eraseDups, Q x := by
+        intro x hx
+        rw [List.mem_eraseDups] at hx
+        exact hclose it (hwork it (by simp)) x (List.mem_filter.mp hx).1
+      apply ih
+      · intro x hx
+        rcases List.mem_append.mp hx with h | h
+        · exact hwork x (by simp [h])
+        · exact hQP _ (hnews x h)
+      · exact mem_foldl_insert Q _ _ hacc hnews
+
+theorem hull_mem (g : Grammar) (fi : FirstInfo) (P Q : Item → Prop) (hQP : ∀ x, Q x → P x)
+    (hclose : ∀ it, P it → ∀ x ∈ closeItem g fi it, Q x) (I : List Item) (hI : ∀ x ∈ I, Q x) :
+    ∀ x ∈ hull g fi I, Q x := by
+  have hstart : ∀ x ∈ I.foldl ItemSet.insert [], Q x :=
+    mem_foldl_insert Q I [] (by simp) hI
+  simp only [hull]
+  exact hullAux_mem g fi P Q hQP hclose _ _ _ (fun x hx => hQP _ (hstart x hx)) hstart
+
+/-- the item with the dot moved one symbol to the right -/
+def adv (it : Item) : Item := { it with dot := it.dot + 1 }
+
+theorem jump_mem (g : Grammar) (fi : FirstInfo) (P Q : Item → Prop) (hQP : ∀ x, Q x → P x)
+    (hclose : ∀ it, P it → ∀ x ∈ closeItem g fi it, Q x) (I : ItemSet) (X : Sym)
+    (hadv : ∀ it ∈ I, g.afterDot it = X → Q (adv it)) :
+    ∀ x ∈ jump g fi I X, Q x := by
+  simp only [jump]
+  apply hull_mem g fi P Q hQP hclose
+  intro x hx
+  rcases List.mem_map.mp hx with ⟨it, hit, rfl⟩
+  have := List.mem_filter.mp hit
+  exact hadv it this.1 (by simpa using this.2)
+
+theorem befores_ne_eps (g : Grammar) (I : ItemSet) : ∀ x ∈ befores g I, x ≠ .eps := by
+  simp only [befores]
+  apply foldl_inv (fun (a : List Sym) => ∀ x ∈ a, x ≠ .eps)
+  · simp
+  · intro b a _ hb x hx
+    split at hx
+    · exact hb x hx
+    · rename_i hne
+      rcases mem_sortedInsert _ _ _ _ _ hx with h | h
+      · subst h; exact hne
+      · exact hb x h
+
+/-! ### the collection: recorded transitions are faithful -/
+
+def TransOK (g : Grammar) (fi : FirstInfo) (S : List LRState) : Prop :=
+  ∀ (i : Nat) (st : LRState), S[i]? = some st → ∀ (X : Sym) (j : Nat), (X, j) ∈ st.trans →
+    X ≠ .eps ∧ ∃ st' : LRState, S[j]? = some st' ∧ st'.items = jump g fi st.items X
+
+theorem TransOK_append (g : Grammar) (fi : FirstInfo) (S : List LRState) (r : ItemSet)
+    (h : TransOK g fi S) : TransOK g fi (S ++ [⟨r, []⟩]) := by
+  intro i st hi X j hm
+  rw [List.getElem?_append] at hi
+  split at hi
+  · obtain ⟨hne, st', hj, hst'⟩ := h i st hi X j hm
+    refine ⟨hne, st', ?_, hst'⟩
+    have hjlt : j < S.length := by
+      rcases Nat.lt_or_ge j S.length with h | h
+      · exact h
+      · rw [List.getElem?_eq_none h] at hj; cases hj
+    rw [List.getElem?_append_left hjlt]; exact hj
+  · exfalso
+    cases hk : i - S.length with
+    | zero => rw [hk] at hi; simp at hi; subst hi; simp at hm
+    | succ k => rw [hk] at hi; simp at hi
+
+theorem set_items (S : List LRState) (i : Nat) (st : LRState) (tr : List (Sym × Nat))
+    (hi : S[i]? = some st) (j : Nat) (st' : LRState) (hj : S[j]? = some st') :
+    ∃ st'', (S.set i { st with trans := tr })[j]? = some st'' ∧ st''.items = st'.items := by
+  rw [List.getElem?_set]
+  by_cases hij : i = j
+  · subst hij
+    have hlt : i < S.length := by
+      rcases Nat.lt_or_ge i S.length with h | h
+      · exact h
+      · rw [List.getElem?_eq_none h] at hi; cases hi
+    rw [hi] at hj; cases hj
+    simp [hlt]
+  · simp [hij, hj]
+
+theorem TransOK_set (g : Grammar) (fi : FirstInfo) (S : List LRState) (i : Nat) (st : LRState)
+    (tr : List (Sym × Nat)) (h : TransOK g fi S) (hi : S[i]? = some st)
+    (htr : ∀ X j, (X, j) ∈ tr → X ≠ .eps ∧ ∃ st', S[j]? = some st' ∧ st'.items = jump g fi st.items X) :
+    TransOK g fi (S.set i { st with trans := tr }) := by
+  intro k stk hk X j hm
+  rw [List.getElem?_set] at hk
+  by_cases hik : i = k
+  · subst hik
+    simp only [if_true] at hk
+    split at hk
+    · cases hk
+      obtain ⟨hne, st', hj, hst'⟩ := htr X j hm
+      obtain ⟨st'', h1, h2⟩ := set_items S i st tr hi j st' hj
+      exact ⟨hne, st'', h1, by rw [h2, hst']⟩
+    · cases hk
+  · simp only [hik, if_false] at hk
+    obtain ⟨hne, st', hj, hst'⟩ := h k stk hk X j hm
+    obtain ⟨st'', h1, h2⟩ := set_items S i st tr hi j st' hj
+    exact ⟨hne, st'', h1, by rw [h2, hst']⟩
+
+/-- invariant of the collection under construction: state 0 is the initial hull and every
+    recorded transition leads to the `jump` of its source -/
+def CInv (g : Grammar) (fi : FirstInfo) (h0 : ItemSet) (S : List LRState) : Prop :=
+  TransOK g fi S ∧ ∃ st0, S[0]? = some st0 ∧ st0.items = h0
+
+theorem getElem?_append_some {α : Type} (S : List α) (T : List α) (j : Nat) (a : α)
+    (h : S[j]? = some a) : (S ++ T)[j]? = some a := by
+  have hjlt : j < S.length := by
+    rcases Nat.lt_or_ge j S.length with h' | h'
+    · exact h'
+    · rw [List.getElem?_eq_none h'] at h; cases h
+  rw [List.getElem?_append_left hjlt]; exact h
+
+theorem expandState_inv (g : Grammar) (fi : FirstInfo) (h0 : ItemSet) (S : List LRState) (i : Nat)
+    (h : CInv g fi h0 S) : CInv g fi h0 (expandState g fi S i) := by
+  unfold expandState
+  cases hst : S[i]? with
+  | none => exact h
+  | some st =>
+    simp only []
+    let FI : List LRState × List (Sym × Nat) → Prop := fun acc =>
+      CInv g fi h0 acc.1 ∧ acc.1[i]? = some st ∧
+        ∀ X j, (X, j) ∈ acc.2 → X ≠ .eps ∧ ∃ st', acc.1[j]? = some st' ∧ st'.items = jump g fi st.items X
+    have hfold : FI ((befores g st.items).foldl
+      (fun (acc : List LRState × List (Sym × Nat)) x =>
+        let r := jump g fi st.items x
+        match acc.1.findIdx? (fun s => s.items = r) with
+        | some j => (acc.1, acc.2 ++ [(x, j)])
+        | none => (acc.1 ++ [⟨r, []⟩], acc.2 ++ [(x, acc.1.length)]))
+      (S, [])) := by
+      apply foldl_inv FI
+      · exact ⟨h, hst, by simp⟩
+      · intro acc x hx hacc
+        obtain ⟨⟨hT, st0, hst0, hh0⟩, hi, htr⟩ := hacc
+        have hxne := befores_ne_eps g st.items x hx
+        simp only []
+        cases hf : acc.1.findIdx? (fun s => decide (s.items = jump g fi st.items x)) with
+        | some j =>
+          simp only []
+          refine ⟨⟨hT, st0, hst0, hh0⟩, hi, ?_⟩
+          intro X k hm
+          rcases List.mem_append.mp hm with hm | hm
+          · exact htr X k hm
+          · simp only [List.mem_singleton, Prod.mk.injEq] at hm
+            obtain ⟨rfl, rfl⟩ := hm
+            obtain ⟨hlt, hp, _⟩ := List.findIdx?_eq_some_iff_getElem.mp hf
+            refine ⟨hxne, acc.1[k], ?_, by simpa using hp⟩
+            simp [hlt]
+        | none =>
+          simp only []
+          refine ⟨⟨TransOK_append g fi _ _ hT, st0, getElem?_append_some _ _ _ _ hst0, hh0⟩,
+            getElem?_append_some _ _ _ _ hi, ?_⟩
+          intro X k hm
+          rcases List.mem_append.mp hm with hm | hm
+          · obtain ⟨hne, st', h1, h2⟩ := htr X k hm
+            exact ⟨hne, st', getElem?_append_some _ _ _ _ h1, h2⟩
+          · simp only [List.mem_singleton, Prod.mk.injEq] at hm
+            obtain ⟨rfl, rfl⟩ := hm
+            refine ⟨hxne, ⟨jump g fi st.items X, []⟩, ?_, rfl⟩
+            simp
+    revert hfold
+    generalize ((befores g st.items).foldl _ (S, [])) = res
+    intro hfold
+    obtain ⟨S', tr⟩ := res
+    obtain ⟨⟨hT, st0, hst0, hh0⟩, hi, htr⟩ := hfold
+    simp only [] at hT hst0 hi htr ⊢
+    refine ⟨TransOK_set g fi S' i st tr hT hi htr, ?_⟩
+    obtain ⟨st'', h1, h2⟩ := set_items S' i st tr hi 0 st0 hst0
+    exact ⟨st'', h1, by rw [h2, hh0]⟩
+
+theorem collectAux_inv (g : Grammar) (fi : FirstInfo) (h0 : ItemSet) :
+    ∀ (fuel i : Nat) (S : List LRState), CInv g fi h0 S → CInv g fi h0 (collectAux g fi fuel i S) := by
+  intro fuel
+  induction fuel with
+  | zero => intro i S h; simpa [collectAux] using h
+  | succ fuel ih =>
+    intro i S h
+    simp only [collectAux]
+    split
+    · exact ih _ _ (expandState_inv g fi h0 S i h)
+    · exact h
+
+theorem collection_inv (ga : Grammar) (fi : FirstInfo) (sPrime eof fuel : Nat) :
+    CInv ga fi (hull ga fi [⟨sPrime, 0, 0, .t eof⟩]) (collection ga fi sPrime eof fuel) := by
+  simp only [collection]
+  apply collectAux_inv
+  refine ⟨?_, ⟨hull ga fi [⟨sPrime, 0, 0, .t eof⟩], []⟩, by simp, rfl⟩
+  intro i st hi X j hm
+  cases i with
+  | zero => simp at hi; subst hi; simp at hm
+  | succ i => simp at hi
+
+/-! ### the augmented grammar -/
+
+theorem find_ins_ne (n : Nat) (rhs : List Sym) (m : Nat) (hm : m ≠ n) :
+    ∀ l, (Grammar.add.ins n rhs l).find? (fun e => e.1 = m) = l.find? (fun e => e.1 = m) := by
+  intro l
+  induction l with
+  | nil => simp [Grammar.add.ins, Ne.symm hm]
+  | cons e es ih =>
+    simp only [Grammar.add.ins]
+    split
+    · rename_i h
+      have : ¬ e.1 = m := by rw [h]; exact Ne.symm hm
+      simp [this]
+    · split
+      · simp [List.find?_cons, Ne.symm hm]
+      · simp only [List.find?_cons, ih]
+
+theorem find_ins_eq (n : Nat) (rhs : List Sym) :
+    ∀ l, (∀ e ∈ l, e.1 ≠ n) → (Grammar.add.ins n rhs l).find? (fun e => e.1 = n) = some (n, [rhs]) := by
+  intro l
+  induction l with
+  | nil => intro _; simp [Grammar.add.ins]
+  | cons e es ih =>
+    intro h
+    have he : e.1 ≠ n := h e (by simp)
+    simp only [Grammar.add.ins, he, if_false]
+    split
+    · simp
+    · simp only [List.find?_cons]
+      simp only [he, decide_false]
+      exact ih (fun e' he' => h e' (by simp [he']))
+
+theorem keys_ins (n : Nat) (rhs : List Sym) :
+    ∀ l e, e ∈ Grammar.add.ins n rhs l → e.1 = n ∨ ∃ e' ∈ l, e'.1 = e.1 := by
+  intro l
+  induction l with
+  | nil => intro e he; simp [Grammar.add.ins] at he; subst he; simp
+  | cons e0 es ih =>
+    intro e he
+    simp only [Grammar.add.ins] at he
+    split at he
+    · rename_i h
+      simp only [List.mem_cons] at he
+      rcases he with he | he
+      · subst he; exact Or.inl h
+      · exact Or.inr ⟨e, by simp [he], rfl⟩
+    · split at he
+      · simp only [List.mem_cons] at he
+        rcases he with he | he | he
+        · subst he; exact Or.inl rfl
+        · subst he; exact Or.inr ⟨e, by simp, rfl⟩
+        · exact Or.inr ⟨e, by simp [he], rfl⟩
+      · simp only [List.mem_cons] at he
+        rcases he with he | he
+        · subst he; exact Or.inr ⟨e, by simp, rfl⟩
+        · rcases ih e he with h | ⟨e', he', h⟩
+          · exact Or.inl h
+          · exact Or.inr ⟨e', by simp [he'], h⟩
+
+theorem augment_numNT (g : Grammar) (start eof : Nat) : (g.augment start eof).numNT = g.numNT + 2 := rfl
+
+theorem augment_alts_lt (g : Grammar) (start eof m : Nat) (hm : m < g.numNT) :
+    (g.augment start eof).alts m = g.alts m := by
+  simp only [Grammar.alts, Grammar.augment, Grammar.add]
+  rw [find_ins_ne _ _ _ (by omega), find_ins_ne _ _ _ (by omega)]
+
+theorem augment_alts_S (g : Grammar) (start eof : Nat) (hg : g.Closed) :
+    (g.augment start eof).alts g.numNT = [[.n start]] := by
+  simp only [Grammar.alts, Grammar.augment, Grammar.add]
+  rw [find_ins_ne _ _ _ (by omega), find_ins_eq]
+  · simp
+  · intro e he
+    have := (hg e he).1
+    omega
+
+theorem mem_alts (g : Grammar) (n : Nat) (a : List Sym) (h : a ∈ g.alts n) :
+    ∃ e ∈ g.prods, a ∈ e.2 := by
+  simp only [Grammar.alts] at h
+  cases hf : g.prods.find? (fun e => e.1 = n) with
+  | none => rw [hf] at h; simp at h
+  | some e =>
+    rw [hf] at h
+    exact ⟨e, List.mem_of_find?_eq_some hf, by simpa using h⟩
+
+/-! ### items of reachable states -/
+
+section Items
+variable (g : Grammar) (start eof : Nat)
+
+/-- properties of an item that do not depend on the state it occurs in -/
+structure Good (it : Item) : Prop where
+  alt_lt : it.alt < ((g.augment start eof).alts it.left).length
+  left_ok : it.left < g.numNT ∨ (it.left = g.numNT ∧ it.follow = .t eof)
+
+theorem good_rhs_get {it : Item} (h : Good g start eof it) :
+    ((g.augment start eof).alts it.left)[it.alt]? = some ((g.augment start eof).rhs it) := by
+  simp [Grammar.rhs, List.getElem?_eq_getElem h.alt_lt]
+
+theorem good_rhs_mem {it : Item} (h : Good g start eof it) :
+    (g.augment start eof).rhs it ∈ (g.augment start eof).alts it.left :=
+  List.mem_of_getElem? (good_rhs_get g start eof h)
+
+theorem good_S {it : Item} (hg : g.Closed) (h : Good g start eof it) (hl : it.left = g.numNT) :
+    it.alt = 0 ∧ (g.augment start eof).rhs it = [.n start] ∧ it.follow = .t eof := by
+  have h1 := h.alt_lt
+  have h2 := good_rhs_mem g start eof h
+  rw [hl, augment_alts_S g start eof hg] at h1 h2
+  refine ⟨by simpa using h1, by simpa using h2, ?_⟩
+  rcases h.left_ok with h3 | h3
+  · omega
+  · exact h3.2
+
+theorem good_rhs_sym {it : Item} (hg : g.Closed) (hs : start < g.numNT) (h : Good g start eof it) :
+    ∀ s ∈ (g.augment start eof).rhs it, ∀ k, s = .n k → k < g.numNT := by
+  intro s hsm k hk
+  rcases h.left_ok with hl | hl
+  · have h2 := good_rhs_mem g start eof h
+    rw [augment_alts_lt g start eof _ hl] at h2
+    obtain ⟨e, he, ha⟩ := mem_alts g _ _ h2
+    exact ((hg e he).2 _ ha s hsm).2 k hk
+  · rw [(good_S g start eof hg h hl.1).2.1] at hsm
+    simp only [List.mem_singleton] at hsm
+    rw [hsm] at hk; cases hk; exact hs
+
+theorem rhs_adv (ga : Grammar) (it : Item) : ga.rhs (adv it) = ga.rhs it := rfl
+
+theorem good_adv {it : Item} (h : Good g start eof it) : Good g start eof (adv it) :=
+  ⟨h.alt_lt, h.left_ok⟩
+
+theorem afterDot_some (ga : Grammar) (it : Item) (X : Sym) (hX : X ≠ .eps) (h : ga.afterDot it = X) :
+    (ga.rhs it)[it.dot]? = some X := by
+  simp only [Grammar.afterDot] at h
+  cases hh : (ga.rhs it)[it.dot]? with
+  | none => rw [hh] at h; simp at h; exact absurd h.symm hX
+  | some Y => rw [hh] at h; simpa using h
+
+theorem good_close (fi : FirstInfo) {it : Item} (hg : g.Closed) (hs : start < g.numNT)
+    (h : Good g start eof it) :
+    ∀ x ∈ closeItem (g.augment start eof) fi it, Good g start eof x ∧ x.dot = 0 ∧ x.left < g.numNT := by
+  intro x hx
+  simp only [closeItem] at hx
+  split at hx
+  · rename_i b hb
+    have hb' := afterDot_some _ it (.n b) (by simp) hb
+    have hblt : b < g.numNT := good_rhs_sym g start eof hg hs h _ (List.mem_of_getElem? hb') b rfl
+    simp only [List.mem_flatMap, List.mem_range, List.mem_map] at hx
+    obtain ⟨ri, hri, la, _, rfl⟩ := hx
+    exact ⟨⟨hri, Or.inl hblt⟩, rfl, hblt⟩
+  · simp at hx
+
+/-- the state stack of the driver spells a path of the automaton -/
+inductive Stk (S : List LRState) : Nat → List Nat → List Sym → Prop
+  | base : Stk S 0 [] []
+  | push {q : Nat} {qs : List Nat} {syms : List Sym} {st : LRState} {X : Sym} {q' : Nat} :
+      Stk S q qs syms → S[q]? = some st → (X, q') ∈ st.trans → Stk S q' (q :: qs) (X :: syms)
+
+/-- what an item of a state says about every path (symbols top first) reaching the state -/
+structure ItemOK (syms : List Sym) (it : Item) : Prop where
+  good : Good g start eof it
+  dot_le : it.dot ≤ ((g.augment start eof).rhs it).length
+  pre : (((g.augment start eof).rhs it).take it.dot).reverse <+: syms
+  s0 : it.left = g.numNT → it.dot = 0 → syms = []
+  s1 : it.left = g.numNT → it.dot = 1 → syms = [.n start]
+
+theorem itemOK_closure (syms : List Sym) (x : Item) (hgood : Good g start eof x) (hd : x.dot = 0)
+    (hl : x.left < g.numNT) : ItemOK g start eof syms x := by
+  refine ⟨hgood, by omega, ?_, ?_, ?_⟩
+  · rw [hd]; simp
+  · intro h; omega
+  · intro h; omega
+
+theorem stk_items (fi : FirstInfo) (S : List LRState) (hg : g.Closed) (hs : start < g.numNT)
+    (hS : CInv (g.augment start eof) fi (hull (g.augment start eof) fi [⟨g.numNT, 0, 0, .t eof⟩]) S)
+    {q : Nat} {qs : List Nat} {syms : List Sym} (hstk : Stk S q qs syms) :
+    ∀ st, S[q]? = some st → ∀ it ∈ st.items, ItemOK g start eof syms it := by
+  induction hstk with
+  | base =>
+    intro st hst it hit
+    obtain ⟨_, st0, hst0, hh0⟩ := hS
+    rw [hst0] at hst; cases hst
+    rw [hh0] at hit
+    have hinit : Good g start eof ⟨g.numNT, 0, 0, .t eof⟩ :=
+      ⟨by simp [augment_alts_S g start eof hg], Or.inr ⟨rfl, rfl⟩⟩
+    have := hull_mem (g.augment start eof) fi (Good g start eof)
+      (fun x => Good g start eof x ∧ (x = ⟨g.numNT, 0, 0, .t eof⟩ ∨ (x.dot = 0 ∧ x.left < g.numNT)))
+      (fun x hx => hx.1)
+      (fun it hit x hx => by
+        have := good_close g start eof fi hg hs hit x hx
+        exact ⟨this.1, Or.inr this.2⟩)
+      [⟨g.numNT, 0, 0, .t eof⟩]
+      (by intro x hx; simp only [List.mem_singleton] at hx; subst hx; exact ⟨hinit, Or.inl rfl⟩)
+      it hit
+    obtain ⟨hgood, h | ⟨hd, hl⟩⟩ := this
+    · subst h
+      refine ⟨hgood, by simp, by simp, fun _ _ => rfl, ?_⟩
+      intro _ h; simp at h
+    · exact itemOK_closure g start eof [] it hgood hd hl
+  | @push q qs syms st X q' hprev hq hX ih =>
+    intro st' hst' it hit
+    obtain ⟨hXne, st'', hst'', hitems⟩ := hS.1 q st hq X q' hX
+    rw [hst''] at hst'; cases hst'
+    rw [hitems] at hit
+    have ihq := ih st hq
+    have := jump_mem (g.augment start eof) fi (Good g start eof)
+      (fun x => Good g start eof x ∧
+        ((∃ it0 ∈ st.items, (g.augment start eof).afterDot it0 = X ∧ x = adv it0) ∨
+          (x.dot = 0 ∧ x.left < g.numNT)))
+      (fun x hx => hx.1)
+      (fun it hit x hx => by
+        have := good_close g start eof fi hg hs hit x hx
+        exact ⟨this.1, Or.inr this.2⟩)
+      st.items X
+      (fun it0 hit0 h0 => ⟨good_adv g start eof (ihq it0 hit0).good, Or.inl ⟨it0, hit0, h0, rfl⟩⟩)
+      it hit
+    obtain ⟨hgood, ⟨it0, hit0, haft, rfl⟩ | ⟨hd, hl⟩⟩ := this
+    · have ok0 := ihq it0 hit0
+      have hget := afterDot_some _ it0 X hXne haft
+      have hlt : it0.dot < ((g.augment start eof).rhs it0).length := by
+        rcases Nat.lt_or_ge it0.dot ((g.augment start eof).rhs it0).length with h | h
+        · exact h
+        · rw [List.getElem?_eq_none h] at hget; cases hget
+      refine ⟨hgood, ?_, ?_, ?_, ?_⟩
+      · rw [rhs_adv]; simp only [adv]; omega
+      · rw [rhs_adv]; simp only [adv]
+        rw [List.take_add_one, hget]
+        simp only [Option.toList_some, List.reverse_append, List.reverse_cons, List.reverse_nil,
+          List.nil_append, List.singleton_append]
+        exact (List.prefix_cons_inj X).mpr ok0.pre
+      · intro _ h; simp [adv] at h
+      · intro hl h
+        have hd0 : it0.dot = 0 := by simpa [adv] using h
+        have hl0 : it0.left = g.numNT := hl
+        have := ok0.s0 hl0 hd0
+        subst this
+        have hr := (good_S g start eof hg ok0.good hl0).2.1
+        rw [hr, hd0] at hget
+        simp at hget
+        rw [hget]
+    · exact itemOK_closure g start eof _ it hgood hd hl
+
+end Items
+
+end LRSound
 end Theo
